@@ -1,6 +1,8 @@
 pub mod c08;
 pub mod c09;
 pub mod c10;
+pub mod c13;
+pub mod c14;
 pub mod c15;
 
 /// re-execute a recorded replay file natively; exit code 1 if the violation reproduces, 0 if not
